@@ -50,7 +50,8 @@ def to_scenarios(behs, prefix, extract="header"):
             for r in ids:
                 steps.append({"op": "finish", "r": r, "how": "return"})
         steps.append({"op": "quiesce"})
-        out.append({"id": "%s-%d" % (prefix, i), "cfg": {"max": b["max"], "extract": extract}, "steps": steps})
+        out.append({"id": "%s-%d" % (prefix, i), "cfg": {"max": b["max"], "extract": extract[i % len(extract)] if isinstance(extract, list) else extract},
+                    "steps": steps})
     return out
 
 
@@ -73,7 +74,7 @@ def seeded(ctx, n, length):
                 steps.append(st)
                 running.append(rid)   # rejected ones are ignored by the driver at finish
         out.append({"max": mx, "steps": steps})
-    return to_scenarios(out, "rnd", extract=rng.choice(["header", "ip"]))
+    return to_scenarios(out, "rnd", extract=["header", "ip", "token", "host"])
 
 
 def classify(clause, sc, report, evs):
